@@ -252,6 +252,7 @@ pub fn u_unk(tier: Tier) -> Vec<Universe> {
                                     kind: ConnKind::Matrix,
                                     bigram: None,
                                     astral_takes_nul: false,
+                default_line_pos: 0,
                                 };
                                 let mut opts = vec![];
                                 for &mgl in &mgls {
@@ -317,7 +318,20 @@ pub fn u_nul(_tier: Tier) -> Vec<Universe> {
                     kind: ConnKind::Matrix,
                     bigram: None,
                     astral_takes_nul: false,
+                default_line_pos: 0,
                 };
+                if tn == "T=012" && xname != "nomatch" {
+                    let mut d2 = d.clone();
+                    d2.default_line_pos = 2;
+                    out.push(Universe {
+                        name: format!("nul/{nm}/{tn}/{xname}/DEFAULT-line@2"),
+                        dict: d2,
+                        alphabet: vec!['a', 'b', '\0', '😀', ' '],
+                        opts: vec![Opts { ignore_space: true, mgl: 1 }],
+                        k1: false,
+                        mapping: None,
+                    });
+                }
                 out.push(Universe {
                     name: format!("nul/{nm}/{tn}/{xname}"),
                     dict: d,
@@ -365,6 +379,7 @@ pub fn u_k1(_tier: Tier) -> Vec<Universe> {
                     kind: ConnKind::Matrix,
                     bigram: None,
                     astral_takes_nul: false,
+                default_line_pos: 0,
                 };
                 out.push(Universe {
                     name: format!("k1/{lname}/missing{missing}/{xname}"),
@@ -612,6 +627,7 @@ pub fn u_lex(tier: Tier) -> Vec<Universe> {
                         kind,
                         bigram: bigram.clone(),
                         astral_takes_nul: false,
+                default_line_pos: 0,
                     };
                     let mut name = format!("lex/{xname}/{cname}");
                     if with_user {
